@@ -8,6 +8,7 @@ import (
 	"github.com/hneemann/parser2/funcGen"
 	"github.com/hneemann/parser2/value"
 	"math"
+	"sync"
 	"time"
 )
 
@@ -42,7 +43,10 @@ func (f File) GetType() value.Type {
 }
 
 func AddFileHelpers(f *value.FunctionGenerator) {
-	DataTypeId = f.RegisterType("dataFile", "Represents a data table which can be exported as a csv or dat file.")
+	dataId := f.RegisterType("dataFile", "Represents a data table which can be exported as a csv or dat file.")
+	dataTypeIdOnce.Do(func() {
+		DataTypeId = dataId
+	})
 	f.RegisterMethods(value.ListTypeId, value.MethodMap{
 		"zip": value.MethodAtType(1, func(list *value.List, st funcGen.Stack[value.Value]) (value.Value, error) {
 			if name, ok := st.Get(1).(value.String); ok {
@@ -79,7 +83,7 @@ func AddFileHelpers(f *value.FunctionGenerator) {
 			return nil, errors.New("zip requires a filename as argument")
 		}).SetMethodDescription("name", "Creates a zip file from the list of files."),
 	})
-	f.RegisterMethods(DataTypeId, value.MethodMap{
+	f.RegisterMethods(dataId, value.MethodMap{
 		"add": value.MethodAtType(3, func(data *Data, st funcGen.Stack[value.Value]) (value.Value, error) {
 			if name, ok := st.Get(1).(value.String); ok {
 				if unit, ok := st.Get(2).(value.String); ok {
@@ -209,6 +213,11 @@ type DataContent struct {
 }
 
 var DataTypeId value.Type
+
+// dataTypeIdOnce guards DataTypeId, which is stored by the first call of
+// AddFileHelpers only. This allows to set up a generator while functions of
+// another generator are evaluated concurrently.
+var dataTypeIdOnce sync.Once
 
 type Data struct {
 	Time        value.Closure
